@@ -36,6 +36,8 @@ def config(typ, variant="std"):
         return (("a", typ, 2, None), ("s", typ, None, None), ("b", typ, 1, "0x401/1/1"), ("c", typ, 2, "0x401/1/2"))
     if variant == "tiny":
         return (("a", typ, 2, None), ("s", typ, None, None), ("b", typ, 1, "0x401/1/1"))
+    if variant == "many":    # more than ten tags auto-allocated in one instance (attribute ids 1..12), mixed lengths
+        return tuple(("t%d" % i, typ, (None if i % 3 == 0 else 2), None) for i in range(12))
     if variant == "alias":   # two names for one attribute, a 16-bit instance id, a tag name with a dot
         return (("a", typ, 2, None), ("b", typ, 2, "0x401/300/1"), ("b2", typ, 2, "0x401/300/1"), ("x.y", typ, None, None))
     raise ValueError(variant)
@@ -112,6 +114,7 @@ class Rig:
     def __init__(self, cfg, seam="cm", via_main=False, max_bytes=None):
         self.cfg = tuple(tuple(x) for x in cfg)
         self.sim = sim.Sim(self.cfg, via_main=via_main, max_bytes=max_bytes)
+        self.config_problems = list(self.sim.config_problems)
         self.model = refmodel.TagModel(self.cfg, self.sim.addr_of)
         self.seam = seam
         self.session = None
@@ -119,9 +122,13 @@ class Rig:
         if seam == "rr":
             self.session = self.sim.register(self.addr)
         self.types = {name: typ for name, typ, _, _ in self.cfg}
+        self.log = []            # every request executed on this simulator, in order (replay = re-execute on a fresh one)
+        self.second = None       # (session, addr) of a second session on the whole-frame seam, registered on first use
+        self.on_second = False
 
     def execute(self, req):
         """-> (cip_reply or None, exc_text or None)"""
+        self.log.append(("@2", req) if self.on_second else req)
         cip = refmodel.encode_request(req)
         if self.seam == "cm":
             try:
@@ -133,10 +140,27 @@ class Rig:
             # Read Tag Fragmented (0x52) would be indistinguishable from the wrapper service itself
             rpy, status, fr = self.sim.rr(self.session, cip, self.addr, route_path=[("port", (1, 0))])
         except Exception as exc:
+            self.renew_session()
             return None, "logix.process raised %s: %s" % (type(exc).__name__, exc)
         if rpy is None:
+            self.renew_session()
             return None, "encapsulation status 0x%02x" % (status or 0)
         return rpy, None
+
+    def swap_session(self):
+        """whole-frame seam: continue on the other of two sessions (the second is registered on first use)"""
+        if self.seam != "rr":
+            return
+        if self.second is None:
+            addr2 = ("127.0.0.2", 20002)
+            self.second = (self.sim.register(addr2), addr2)
+        (self.session, self.addr), self.second = self.second, (self.session, self.addr)
+        self.on_second = not self.on_second
+
+    def renew_session(self):
+        """after an encapsulation-level error the server ends that session: open a new one on the same peer address"""
+        if self.seam == "rr":
+            self.session = self.sim.register(self.addr)
 
     def step(self, req):
         """Execute + judge one request against the model; returns [(kind,msg)] and leaves model == sim (or reports)."""
@@ -173,3 +197,26 @@ class Rig:
 
 def norm_state(store):
     return tuple((n, tuple(v)) for n, v in store)
+
+
+def detuple(x):
+    if isinstance(x, list):
+        return tuple(detuple(v) for v in x)
+    return x
+
+
+def replay_history(rig, history):
+    """Re-execute a recorded request history on a fresh rig; returns the violation messages of the LAST request (and of any
+    earlier one that already violates)."""
+    msgs = []
+    rig.model.load_observed(rig.sim.store())
+    for i, req in enumerate(history):
+        req = detuple(req)
+        second = req[0] == "@2"
+        if second:
+            req = req[1]
+        if second != rig.on_second:
+            rig.swap_session()
+        for k, m in rig.step(req):
+            msgs.append("%s[request %d of %d] %s" % ("" if i == len(history) - 1 else "(earlier) ", i + 1, len(history), m))
+    return msgs
